@@ -61,7 +61,7 @@ PROPS = {
     },
     "C03": {
         "title": "Parameter-based retrace",
-        "units": [U1F, U2F, U8, U6M, U6W, U13],
+        "units": [U1F, U2F, U8, U6M, U6W, U13, U14],
         "kani": [],
         "technique": "Verus contracts: iterate_without_lines == head of by_params(); remap_frame(by params) == exact (name, params) block",
         "level_text": "Proof that a frame carrying parameters is answered from exactly the entries whose (obfuscated name, params) match, one frame "
@@ -71,7 +71,7 @@ PROPS = {
     },
     "C04": {
         "title": "Class lookup exact; method lookup never guesses",
-        "units": [U1F, U2F, U6M, U6W, U13],
+        "units": [U1F, U2F, U6M, U6W, U13, U14],
         "kani": [],
         "technique": "Verus contracts on get_class / remap_class / remap_method (iff-unanimous postcondition), both readers",
         "level_text": "Proof that remap_class answers iff a class with exactly that obfuscated name exists, and remap_method answers (class, m) iff "
